@@ -1,0 +1,24 @@
+//go:build verif
+
+// Verification hook (build tag "verif" only; see /verif/MANIFEST.hooks): thin exported wrappers
+// around the unexported CNI IPAM entry points, plus access to the client override of
+// cni-plugin/internal/pkg/utils (which cannot be imported from outside cni-plugin).
+
+package ipamplugin
+
+import (
+	"github.com/containernetworking/cni/pkg/skel"
+
+	"github.com/projectcalico/calico/cni-plugin/internal/pkg/utils"
+	"github.com/projectcalico/calico/cni-plugin/pkg/types"
+	client "github.com/projectcalico/calico/libcalico-go/lib/clientv3"
+)
+
+// VerifCmdAdd runs the IPAM plugin's ADD command.
+func VerifCmdAdd(args *skel.CmdArgs) error { return cmdAdd(args) }
+
+// VerifCmdDel runs the IPAM plugin's DEL command.
+func VerifCmdDel(args *skel.CmdArgs) error { return cmdDel(args) }
+
+// VerifSetClient installs (nil: removes) the factory that utils.CreateClient consults first.
+func VerifSetClient(f func(conf types.NetConf) client.Interface) { utils.SetVerifClientOverride(f) }
